@@ -171,3 +171,38 @@ func mentionsNameDeep(p *core.Prog, info *types.Info, body ast.Node, e ast.Node,
 	})
 	return found
 }
+
+// governingConsts: the constant values K such that statement st executes only when a tested subject equals K — the
+// nearest enclosing `case K1, K2:` clause of a tagged switch, or the then-branch of `if subject == K` (else-branch of
+// `if subject != K`). Used to read unit / opcode tables independently of whether they are written as a switch or an
+// if-chain.
+func governingConsts(info *types.Info, body ast.Node, st ast.Node) []string {
+	path := core.PathTo(body, st)
+	for i := len(path) - 2; i >= 0; i-- {
+		switch par := path[i].(type) {
+		case *ast.CaseClause:
+			var out []string
+			for _, e := range par.List {
+				if tv, ok := info.Types[e]; ok && tv.Value != nil {
+					out = append(out, tv.Value.String())
+				}
+			}
+			if len(out) > 0 {
+				return out
+			}
+		case *ast.IfStmt:
+			child := path[i+1]
+			inThen := child == ast.Node(par.Body)
+			inElse := par.Else != nil && child == ast.Node(par.Else)
+			if !inThen && !inElse {
+				continue
+			}
+			if _, y, eq, ok := eqTest(par.Cond, inThen); ok && eq {
+				if tv, ok := info.Types[y]; ok && tv.Value != nil {
+					return []string{tv.Value.String()}
+				}
+			}
+		}
+	}
+	return nil
+}
